@@ -11,3 +11,6 @@ CHECKS.update({"C02": ("arrays", "run_c02"), "C07": ("arrays", "run_c07"), "C08"
 CHECKS.update({"C09": ("vectors", "run_c09")})
 CHECKS.update({"C05": ("hist", "run_c05")})
 CHECKS.update({"C03": ("maps", "run_c03"), "C11": ("maps", "run_c11")})
+CHECKS.update({"C16": ("subdomain", "run_c16")})
+CHECKS.update({"C18": ("direction", "run_c18")})
+CHECKS.update({"C19": ("layers", "run_c19")})
